@@ -191,8 +191,15 @@ def splitBar : List String → List (List String)
     | [] => [[t]]
     | g :: gs => if t = "|" then [] :: g :: gs else (t :: g) :: gs
 
+/-- Adjacency lists of the parsed arcs (driver only: makes `nb` cost `O(deg)` instead of
+`O(|E|)` so that graphs on a hundred vertices run in milliseconds; the model `bk` takes `nb` as
+a parameter). A vertex `≥ n` has no neighbours (the parser rejects such arcs). -/
+def adjLists (n : Nat) (edges : List (Nat × Nat)) : Array (List Nat) :=
+  edges.foldl (fun a e => a.modify e.1 (fun l => e.2 :: l)) (Array.replicate n [])
+
 def graphOp (n : Nat) (edges : List (Nat × Nat)) (ts : List String) : Option (Option String) :=
-  let nb : Nat → Nat → Bool := fun v u => edges.contains (v, u)
+  let adj := adjLists n edges
+  let nb : Nat → Nat → Bool := fun v u => (adj.getD v []).contains u
   match ts with
   | ["cliques"] =>
     some ((maximalCliques nb (List.range n)).map fun cs => showCliques (canonCliques cs))
